@@ -277,8 +277,19 @@ def _shard_hypothesis(mod_name: str, sub_idx: int, n: int, seed: int, tier: str)
     except BaseException as e:  # harness error
         if isinstance(e, (KeyboardInterrupt, SystemExit)):
             raise
-        err = "".join(traceback.format_exception(type(e), e, e.__traceback__))[-6000:]
-    if acc.violation is not None and err is None:
+        flaky = type(e).__name__ in ("Flaky", "FlakyFailure", "FlakyReplay")
+        if flaky and acc.violation is not None:
+            # the property failed on a case and passed when Hypothesis replayed the same case in the same process: the code under
+            # test keeps state between calls (a process-wide cache, a shared default argument). The violation stands; the recipe alone
+            # does not reproduce it in a fresh process, so this is said in the detail.
+            sig_f, rec_f, det_f = acc.violation
+            det_f = dict(det_f) if isinstance(det_f, dict) else dict(detail=det_f)
+            det_f["history_dependent"] = ("failed, then passed when the same case was replayed in the same process: the outcome depends on "
+                                          "earlier cases run in the process (state kept by the code under test between calls)")
+            acc.violation = (sig_f, rec_f, det_f)
+        else:
+            err = "".join(traceback.format_exception(type(e), e, e.__traceback__))[-6000:]
+    if acc.violation is not None and err is None and not (locals().get("flaky")):
         # post-reduction (the Hypothesis shrinker stops after 5 minutes; large thorough-tier finds stay large otherwise)
         sig0, recipe0, detail0 = acc.violation
         if len(json.dumps(recipe0, default=str)) > 600:
